@@ -1,5 +1,5 @@
 ------------------------------- MODULE Auction -------------------------------
-(* Relay auction of Vouch: strategies/builderbid/{best,deadline}/builderbid.go on top of which   *)
+(* Relay auctions of Vouch: strategies/builderbid/{best,deadline}/builderbid.go on top of which *)
 (* services/blockrelay/standard/{auctionblock,builderbid}.go caches and serves the winning bid. *)
 (*                                                                                              *)
 (* Property C09: the winning bid is the one with the highest score (value adjusted by the       *)
@@ -9,63 +9,106 @@
 (* => no winner; what BuilderBid then serves for (slot, parent, pubkey) is that auction's       *)
 (* winner or "no bid".                                                                          *)
 (*                                                                                              *)
+(* THE INSTANCE AND ITS HISTORY.  A behaviour is the life of ONE strategy Service and ONE block *)
+(* relay Service (both are created once in main.go and live as long as the process): a history  *)
+(* of auctions 1..MaxAuctions on that instance.  The relay ADDRESSES (Relays) and the builder   *)
+(* public keys are the same throughout, but everything else is an input of the single auction:  *)
+(* the RelayConfig of every relay is generated anew for every auction from the execution        *)
+(* configuration (min_value, public key, grace can differ per proposer / proposer-relay and     *)
+(* after a configuration refresh): cfg[i]; the builder configuration is a parameter of the      *)
+(* strategy call: tab[i]; the bids.  Production overlaps auctions on the instance (the proposal *)
+(* jobs of neighbouring slots, the immediate auction that BuilderBid starts for a key it does   *)
+(* not know, two validators of one slot in a test network): Start and Return are separate       *)
+(* actions and up to MaxOpen auctions are in progress at the same time, their steps interleaved *)
+(* by the environment.                                                                          *)
+(*                                                                                              *)
+(* The property must hold for EVERY auction of the history: all invariants are quantified over  *)
+(* the auctions and judge auction i by its OWN inputs only (cfg[i], tab[i], the answers given   *)
+(* to auction i and their phases).  The only state the property makes persistent on the         *)
+(* instance is `cache` (the winner or the "no bid" dummy per auctioned key); `prov` is the      *)
+(* environment's (a relay client reports the public key that is part of its address).           *)
+(* Everything else must be history-independent.  `memo` is the state that the named DEVIATING   *)
+(* designs keep on the instance (vacuity self-checks: every one of them is right on a fresh     *)
+(* instance, respectively on sequential histories, and TLC must reject it on histories):        *)
+(*   MinMemo     the minimum value of a relay is remembered by relay address (first seen wins)  *)
+(*   KeyMemo     whether a relay's bids need a signature check is remembered by relay address   *)
+(*   TabMemo     the builder catalogue (offset / factor per builder) is remembered              *)
+(*   SharedBest  the best score so far lives in the service (reset when an auction starts)      *)
+(*                                                                                              *)
 (* One action per interface call / critical section:                                            *)
-(*   Deliver(r, a)   environment: relay r answers its (next) request with a, now                *)
+(*   Start(i,k,c,t)  AuctionBlock is called for key k = (slot, parent, pubkey); the execution   *)
+(*                   configuration yields relay configurations c, the builder catalogue is t    *)
+(*   Deliver(i,r,a)  environment: relay r answers its (next) request of auction i with a, now   *)
 (*                   (provider.BuilderBid returns inside the per-relay goroutine, which checks  *)
 (*                   eligibility - builderBid/builderBidAttempt - and sends to respCh/errCh)    *)
-(*   Consume(e)      main loop receives e from respCh and runs setBuilderBid                    *)
-(*   Drop(e)         a bid that cannot change the winner is not processed (left open by the     *)
-(*                   property; the deadline strategy does not forward non-improving bids)       *)
-(*   Tick            environment: the soft / hard time-out (best) or the deadline expires       *)
-(*   Return          the strategy returns its Results and AuctionBlock caches the winner        *)
-(*   NewAuction(k)   AuctionBlock is called for another (slot, parent, pubkey)                  *)
+(*   Consume(i,e)    main loop of auction i receives e from respCh and runs setBuilderBid       *)
+(*   Drop(i,e)       a bid that cannot change the winner is not processed (left open by the     *)
+(*                   property)                                                                  *)
+(*   Tick(i)         environment: the soft / hard time-out (best) or the deadline of auction i   *)
+(*                   expires (every auction has its own clock: time-outs count from its start)  *)
+(*   Return(i)       the strategy returns its Results and AuctionBlock caches the winner        *)
 (*   Serve(k)        BuilderBid(slot, parent, pubkey) on a key that has been auctioned          *)
 EXTENDS Integers, FiniteSets, Sequences, TLC
 
 CONSTANTS Variants,      \* subset of {"best", "deadline"}
-          Relays,        \* relay ids (positive integers)
+          Relays,        \* relay ids = relay addresses (positive integers)
+          ProvSet,       \* set of [Relays -> BOOLEAN]: which relay clients report their public key themselves
           Values,        \* bid values (naturals; 0 = the "zero value" bid)
-          CfgSet,        \* set of relay configurations [Relays -> [min, key, grace]]:
-                         \*   min = configured minimum value, key \in {"none", "config", "provider"} = where the
-                         \*   relay public key is known from, grace = grace period (0 = none; timing only)
+          CfgSet,        \* set of per-auction relay configurations [Relays -> [min, key, grace]]:
+                         \*   min = configured minimum value, key \in {"none", "config"} = whether the relay
+                         \*   configuration of THIS auction carries the public key, grace = grace period
+                         \*   (0 = none; timing only)
+          TableSet,      \* builder catalogues an auction may be run with (subset of {"A", "B"})
           BuilderSet,    \* subset of Builders
           AnswerSet,     \* the answers the environment may give (subset of Answers)
           Headers,       \* payload header ids
-          MaxRounds,     \* answers per relay in the deadline variant
+          MaxRounds,     \* answers per relay and auction in the deadline variant
           Keys,          \* (slot, parent, pubkey) keys
-          MaxAuctions
+          MaxAuctions,   \* length of the history
+          MaxOpen,       \* auctions in progress at the same time
+          Deviation      \* "none" | "MinMemo" | "KeyMemo" | "TabMemo" | "SharedBest"
 
-VARIABLES variant,    \* which strategy
-          cfg,        \* [Relays -> [min, key, grace]]
-          key,        \* key being auctioned
-          clock,      \* 0 = before the soft time-out, 1 = between soft and hard, 2 = hard time-out / deadline passed
-          rounds,     \* [Relays -> number of answers delivered]
-          chan,       \* eligible bids delivered and not yet received by the main loop (respCh)
-          winner,     \* Results.WinningParticipation
-          providers,  \* Results.Providers (as a set)
-          part,       \* Results.Participation
-          returned,   \* the strategy has returned
-          cache,      \* builderBidsCache: [Keys -> Unset | content]
+Auc == 1..MaxAuctions
+
+VARIABLES variant,    \* instance: which strategy (fixed when the service is created)
+          prov,       \* instance (environment): [Relays -> BOOLEAN] relay client reports its public key
+          st,         \* [Auc -> "idle" | "open" | "done" | "past"] (past = done and folded away, see Start)
+          cfg,        \* [Auc -> [Relays -> [min, key, grace]]]   input of auction i
+          tab,        \* [Auc -> TableSet]                         input of auction i
+          key,        \* [Auc -> Keys]                             key auctioned by auction i
+          clock,      \* [Auc -> 0..2] 0 = before the soft time-out, 1 = between soft and hard, 2 = hard time-out / deadline passed
+          rounds,     \* [Auc -> [Relays -> number of answers delivered]]
+          chan,       \* [Auc -> bids handed to the main loop and not yet received (respCh)]
+          winner,     \* [Auc -> Results.WinningParticipation]
+          providers,  \* [Auc -> Results.Providers (as a set)]
+          part,       \* [Auc -> Results.Participation]
+          cache,      \* PERSISTENT: builderBidsCache: [Keys -> Unset | content]
           served,     \* last reply of BuilderBid (observation)
-          offers,     \* ghost: eligible bids that arrived before the deadline (consumed or dropped)
-          inel,       \* ghost: <<r, n>> of answers that were not eligible bids
-          auctions    \* ghost: number of auctions so far
+          offers,     \* ghost [Auc -> eligible bids that arrived before the deadline (consumed or dropped), with their true score]
+          inel,       \* ghost [Auc -> <<r, n>> of answers that were not eligible bids]
+          lost,       \* ghost [Auc -> eligible bids that the relay goroutine did not hand to the main loop] (deviations only)
+          memo        \* what a deviating design remembers on the instance (constant for Deviation = "none")
 
-vars == <<variant, cfg, key, clock, rounds, chan, winner, providers, part, returned, cache, served,
-          offers, inel, auctions>>
+avars == <<st, cfg, tab, key, clock, rounds, chan, winner, providers, part, offers, inel, lost>>
+vars == <<variant, prov, avars, cache, served, memo>>
 
 -----------------------------------------------------------------------------
-(* Builder catalogue (services/blockrelay/builderconfig.go): absent offset/factor = identity.   *)
+(* Builder catalogues (services/blockrelay/builderconfig.go): absent offset/factor = identity.  *)
+(* The same builder public keys appear in both; an auction is run with one of them.             *)
 Builders == {"std", "plus", "minus", "excl", "half", "boost"}
 None == 1000000
-BOff(b) == CASE b = "plus" -> 1 [] b = "minus" -> -2 [] b = "boost" -> 1 [] OTHER -> None
-BFac(b) == CASE b = "excl" -> 0 [] b = "half" -> 50 [] b = "boost" -> 150 [] OTHER -> None
+BOff(t, b) == IF t = "A"
+              THEN CASE b = "plus" -> 1 [] b = "minus" -> -2 [] b = "boost" -> 1 [] OTHER -> None
+              ELSE CASE b = "minus" -> 1 [] b = "boost" -> -2 [] OTHER -> None
+BFac(t, b) == IF t = "A"
+              THEN CASE b = "excl" -> 0 [] b = "half" -> 50 [] b = "boost" -> 150 [] OTHER -> None
+              ELSE CASE b = "std" -> 50 [] b = "half" -> 0 [] OTHER -> None
 
 \* score = ((value + offset) * factor) div 100, as setBuilderBid computes it with big.Int
 \* (big.Int.Div is Euclidean division: floor for the positive divisor 100, like \div)
-Score(val, b) ==
-    LET s1 == IF BOff(b) = None THEN val ELSE val + BOff(b)
-    IN IF BFac(b) = None THEN s1 ELSE (s1 * BFac(b)) \div 100
+Score(t, val, b) ==
+    LET s1 == IF BOff(t, b) = None THEN val ELSE val + BOff(t, b)
+    IN IF BFac(t, b) = None THEN s1 ELSE (s1 * BFac(t, b)) \div 100
 
 Sigs == {"valid", "invalid", "unverifiable"}
 
@@ -78,197 +121,253 @@ Answers == Bids \cup {NoBidAnswer, ErrorAnswer}
 
 \* C09: value at least the relay's minimum, non-zero value, non-zero fee recipient, timestamp equal
 \* to the slot start, valid relay signature when the relay's public key is known
-Eligible(a, c) ==
+Eligible(a, min, known) ==
     /\ a.kind = "bid"
-    /\ a.val >= c.min
+    /\ a.val >= min
     /\ a.val # 0
     /\ ~a.feeZero
     /\ a.tsOk
-    /\ (c.key # "none" => a.sig = "valid")
+    /\ (known => a.sig = "valid")
+
+\* the inputs of auction i, as the property reads them ...
+MinOf(i, r) == cfg[i][r].min
+KnownOf(i, r) == cfg[i][r].key = "config" \/ prov[r]
+\* ... and as the (possibly deviating) design reads them
+ImplMin(i, r) == IF Deviation = "MinMemo" THEN memo[r] ELSE MinOf(i, r)
+ImplKnown(i, r) == IF Deviation = "KeyMemo" THEN memo[r] = 1 ELSE KnownOf(i, r)
+ImplTab(i) == IF Deviation = "TabMemo" THEN memo ELSE tab[i]
 
 NoWin == [r |-> 0, n |-> 0, score |-> 0, hdr |-> 0]
 NoPart == [n |-> 0, score |-> 0]
-Unset == [r |-> -1, n |-> -1, k |-> -1]
-NoBid == [r |-> 0, n |-> 0, k |-> 0]       \* the zero-value dummy: BuilderBid answers "no bid"
+Unset == [i |-> -1, r |-> -1, n |-> -1]
+NoBid == [i |-> 0, r |-> 0, n |-> 0]       \* the zero-value dummy: BuilderBid answers "no bid"
 NoReply == [op |-> "none"]
+NoScore == -1000000
 
-FreshAuction(k) ==
-    /\ key' = k
-    /\ clock' = 0
-    /\ rounds' = [r \in Relays |-> 0]
-    /\ chan' = {}
-    /\ winner' = NoWin
-    /\ providers' = {}
-    /\ part' = [r \in Relays |-> NoPart]
-    /\ returned' = FALSE
-    /\ offers' = {}
-    /\ inel' = {}
+DummyCfg == [r \in Relays |-> [min |-> 0, key |-> "none", grace |-> 0]]
+AnyKey == CHOOSE k \in Keys : TRUE
+AnyTab == CHOOSE t \in TableSet : TRUE
+
+MemoInit == CASE Deviation = "MinMemo" -> [r \in Relays |-> -1]
+              [] Deviation = "KeyMemo" -> [r \in Relays |-> -1]
+              [] Deviation = "TabMemo" -> "unset"
+              [] Deviation = "SharedBest" -> NoScore
+              [] OTHER -> 0
 
 Init ==
     /\ variant \in Variants
-    /\ cfg \in CfgSet
-    /\ key \in Keys
-    /\ clock = 0
-    /\ rounds = [r \in Relays |-> 0]
-    /\ chan = {}
-    /\ winner = NoWin
-    /\ providers = {}
-    /\ part = [r \in Relays |-> NoPart]
-    /\ returned = FALSE
+    /\ prov \in ProvSet
+    /\ st = [i \in Auc |-> "idle"]
+    /\ cfg = [i \in Auc |-> DummyCfg]
+    /\ tab = [i \in Auc |-> AnyTab]
+    /\ key = [i \in Auc |-> AnyKey]
+    /\ clock = [i \in Auc |-> 0]
+    /\ rounds = [i \in Auc |-> [r \in Relays |-> 0]]
+    /\ chan = [i \in Auc |-> {}]
+    /\ winner = [i \in Auc |-> NoWin]
+    /\ providers = [i \in Auc |-> {}]
+    /\ part = [i \in Auc |-> [r \in Relays |-> NoPart]]
     /\ cache = [k \in Keys |-> Unset]
     /\ served = NoReply
-    /\ offers = {}
-    /\ inel = {}
-    /\ auctions = 1
+    /\ offers = [i \in Auc |-> {}]
+    /\ inel = [i \in Auc |-> {}]
+    /\ lost = [i \in Auc |-> {}]
+    /\ memo = MemoInit
 
 -----------------------------------------------------------------------------
 MaxRoundsOf(v) == IF v = "best" THEN 1 ELSE MaxRounds
 
-\* relay r answers; an eligible bid travels to the main loop (with the score setBuilderBid will give
-\* it), anything else changes nothing
-Deliver(r, a) ==
-    /\ ~returned
-    /\ rounds[r] < MaxRoundsOf(variant)
-    /\ rounds' = [rounds EXCEPT ![r] = @ + 1]
-    /\ LET n == rounds[r] + 1 IN
-         IF Eligible(a, cfg[r])
-         THEN /\ chan' = chan \cup {[r |-> r, n |-> n, score |-> Score(a.val, a.bld), hdr |-> a.hdr, ph |-> clock]}
-              /\ inel' = inel
-         ELSE /\ chan' = chan
-              /\ inel' = inel \cup {<<r, n>>}
-    /\ served' = NoReply
-    /\ UNCHANGED <<variant, cfg, key, clock, winner, providers, part, returned, cache, offers, auctions>>
+Open == {i \in Auc : st[i] = "open"}
 
-OfferOf(e) == [r |-> e.r, n |-> e.n, score |-> e.score, hdr |-> e.hdr]
+\* what a deviating design remembers when an auction starts (first seen wins)
+MemoAtStart(c, t) ==
+    CASE Deviation = "MinMemo" -> [r \in Relays |-> IF memo[r] = -1 THEN c[r].min ELSE memo[r]]
+      [] Deviation = "KeyMemo" -> [r \in Relays |-> IF memo[r] = -1
+                                                    THEN (IF c[r].key = "config" \/ prov[r] THEN 1 ELSE 0)
+                                                    ELSE memo[r]]
+      [] Deviation = "TabMemo" -> IF memo = "unset" THEN t ELSE memo
+      [] Deviation = "SharedBest" -> NoScore
+      [] OTHER -> memo
+
+\* AuctionBlock(slot, parent, pubkey) is called: the next auction of the history starts, with its own
+\* relay configurations and builder catalogue; other auctions may be in progress.  (Book-keeping: the
+\* records of the auctions that have returned - judged by the invariants in every state since their
+\* Return - are folded to "past" here: nothing of them but the cache entry persists on the instance.)
+StartF(f, i, v, init) == [j \in Auc |-> IF j = i THEN v ELSE IF st[j] = "done" THEN init ELSE f[j]]
+Start(i, k, c, t) ==
+    /\ st[i] = "idle"
+    /\ Cardinality(Open) < MaxOpen
+    /\ cache[k] = Unset
+    /\ \A j \in Open : key[j] # k
+    /\ st' = StartF(st, i, "open", "past")
+    /\ cfg' = StartF(cfg, i, c, DummyCfg)
+    /\ tab' = StartF(tab, i, t, AnyTab)
+    /\ key' = [key EXCEPT ![i] = k]
+    /\ clock' = StartF(clock, i, 0, 0)
+    /\ rounds' = StartF(rounds, i, [r \in Relays |-> 0], [r \in Relays |-> 0])
+    /\ chan' = StartF(chan, i, {}, {})
+    /\ winner' = StartF(winner, i, NoWin, NoWin)
+    /\ providers' = StartF(providers, i, {}, {})
+    /\ part' = StartF(part, i, [r \in Relays |-> NoPart], [r \in Relays |-> NoPart])
+    /\ offers' = StartF(offers, i, {}, {})
+    /\ inel' = StartF(inel, i, {}, {})
+    /\ lost' = StartF(lost, i, {}, {})
+    /\ memo' = MemoAtStart(c, t)
+    /\ served' = NoReply
+    /\ UNCHANGED <<variant, prov, cache>>
+
+\* relay r answers auction i; an eligible bid travels to the main loop (with the score setBuilderBid will
+\* give it), anything else changes nothing
+Deliver(i, r, a) ==
+    /\ st[i] = "open"
+    /\ rounds[i][r] < MaxRoundsOf(variant)
+    /\ rounds' = [rounds EXCEPT ![i][r] = @ + 1]
+    /\ LET n == rounds[i][r] + 1
+           truly == Eligible(a, MinOf(i, r), KnownOf(i, r))
+           impl == Eligible(a, ImplMin(i, r), ImplKnown(i, r))
+           e == [r |-> r, n |-> n, score |-> Score(ImplTab(i), a.val, a.bld), tscore |-> Score(tab[i], a.val, a.bld),
+                 hdr |-> a.hdr, ph |-> clock[i]]
+       IN /\ chan' = [chan EXCEPT ![i] = IF impl THEN @ \cup {e} ELSE @]
+          /\ inel' = [inel EXCEPT ![i] = IF truly THEN @ ELSE @ \cup {<<r, n>>}]
+          /\ lost' = [lost EXCEPT ![i] = IF truly /\ ~impl THEN @ \cup {e} ELSE @]
+    /\ served' = NoReply
+    /\ UNCHANGED <<variant, prov, st, cfg, tab, key, clock, winner, providers, part, cache, offers, memo>>
+
+OfferOf(e) == [r |-> e.r, n |-> e.n, score |-> e.tscore, hdr |-> e.hdr]
+
+\* the score a new bid has to beat
+ToBeat(i) == IF Deviation = "SharedBest" THEN memo
+             ELSE IF winner[i] = NoWin THEN NoScore ELSE winner[i].score
 
 \* setBuilderBid: zero score never wins; strictly greater replaces and resets the providers; otherwise
 \* an equal header adds its relay to the providers
-Consume(e) ==
-    /\ ~returned
-    /\ e \in chan
+Consume(i, e) ==
+    /\ st[i] = "open"
+    /\ e \in chan[i]
     /\ e.ph < 2                        \* a bid delivered after the deadline is never taken
-    /\ chan' = chan \ {e}
-    /\ offers' = offers \cup {OfferOf(e)}
+    /\ chan' = [chan EXCEPT ![i] = @ \ {e}]
+    /\ offers' = [offers EXCEPT ![i] = @ \cup {OfferOf(e)}]
     /\ LET s == e.score IN
-         /\ part' = [part EXCEPT ![e.r] = [n |-> e.n, score |-> s]]
-         /\ IF s = 0 THEN UNCHANGED <<winner, providers>>
-            ELSE IF winner = NoWin \/ s > winner.score
-                 THEN /\ winner' = [r |-> e.r, n |-> e.n, score |-> s, hdr |-> e.hdr]
-                      /\ providers' = {e.r}
-            ELSE IF e.hdr = winner.hdr
-                 THEN /\ providers' = providers \cup {e.r}
-                      /\ UNCHANGED winner
-            ELSE UNCHANGED <<winner, providers>>
+         /\ part' = [part EXCEPT ![i][e.r] = [n |-> e.n, score |-> s]]
+         /\ IF s = 0 THEN UNCHANGED <<winner, providers, memo>>
+            ELSE IF ToBeat(i) = NoScore \/ s > ToBeat(i)
+                 THEN /\ winner' = [winner EXCEPT ![i] = [r |-> e.r, n |-> e.n, score |-> s, hdr |-> e.hdr]]
+                      /\ providers' = [providers EXCEPT ![i] = {e.r}]
+                      /\ memo' = IF Deviation = "SharedBest" THEN s ELSE memo
+            ELSE IF winner[i] # NoWin /\ e.hdr = winner[i].hdr
+                 THEN /\ providers' = [providers EXCEPT ![i] = @ \cup {e.r}]
+                      /\ UNCHANGED <<winner, memo>>
+            ELSE UNCHANGED <<winner, providers, memo>>
     /\ served' = NoReply
-    /\ UNCHANGED <<variant, cfg, key, clock, rounds, returned, cache, inel, auctions>>
+    /\ UNCHANGED <<variant, prov, st, cfg, tab, key, clock, rounds, cache, inel, lost>>
 
 \* The property does not oblige the strategy to process a bid that cannot become the winner.
-Drop(e) ==
-    /\ ~returned
-    /\ e \in chan
+Drop(i, e) ==
+    /\ st[i] = "open"
+    /\ Deviation = "none"
+    /\ e \in chan[i]
     /\ e.ph < 2
-    /\ LET s == e.score IN s = 0 \/ (winner # NoWin /\ s <= winner.score)
-    /\ chan' = chan \ {e}
-    /\ offers' = offers \cup {OfferOf(e)}
+    /\ LET s == e.score IN s = 0 \/ (winner[i] # NoWin /\ s <= winner[i].score)
+    /\ chan' = [chan EXCEPT ![i] = @ \ {e}]
+    /\ offers' = [offers EXCEPT ![i] = @ \cup {OfferOf(e)}]
     /\ served' = NoReply
-    /\ UNCHANGED <<variant, cfg, key, clock, rounds, winner, providers, part, returned, cache, inel, auctions>>
+    /\ UNCHANGED <<variant, prov, st, cfg, tab, key, clock, rounds, winner, providers, part, cache, inel, lost, memo>>
 
-Tick ==
-    /\ ~returned
-    /\ clock < 2
-    /\ clock' = IF variant = "deadline" THEN 2 ELSE clock + 1
+Tick(i) ==
+    /\ st[i] = "open"
+    /\ clock[i] < 2
+    /\ clock' = [clock EXCEPT ![i] = IF variant = "deadline" THEN 2 ELSE @ + 1]
     /\ served' = NoReply
-    /\ UNCHANGED <<variant, cfg, key, rounds, chan, winner, providers, part, returned, cache, offers, inel, auctions>>
+    /\ UNCHANGED <<variant, prov, st, cfg, tab, key, rounds, chan, winner, providers, part, cache, offers, inel, lost, memo>>
 
-AllAnswered == \A r \in Relays : rounds[r] >= 1
+AllAnswered(i) == \A r \in Relays : rounds[i][r] >= 1
 
 \* When may the strategy decide?  best: everything answered and processed; or the soft time-out has
 \* passed and there is a winner; or the hard time-out has passed.  deadline: the deadline has passed.
 \* A bid delivered strictly before the time-out that justifies the decision has been processed.
-MayReturn ==
-    /\ \A e \in chan : e.ph >= clock
-    /\ \/ variant = "best" /\ AllAnswered /\ chan = {}
-       \/ variant = "best" /\ clock = 1 /\ winner # NoWin
-       \/ clock = 2
+MayReturn(i) ==
+    /\ \A e \in chan[i] : e.ph >= clock[i]
+    /\ \/ variant = "best" /\ AllAnswered(i) /\ chan[i] = {}
+       \/ variant = "best" /\ clock[i] = 1 /\ winner[i] # NoWin
+       \/ clock[i] = 2
 
-Content(w, k) == IF w = NoWin THEN NoBid ELSE [r |-> w.r, n |-> w.n, k |-> k]
+Content(i) == IF winner[i] = NoWin THEN NoBid ELSE [i |-> i, r |-> winner[i].r, n |-> winner[i].n]
 
 \* the strategy returns; AuctionBlock caches the winning bid (or the dummy) under the auctioned key
-Return ==
-    /\ ~returned
-    /\ MayReturn
-    /\ returned' = TRUE
-    /\ cache' = [cache EXCEPT ![key] = Content(winner, key)]
+Return(i) ==
+    /\ st[i] = "open"
+    /\ MayReturn(i)
+    /\ st' = [st EXCEPT ![i] = "done"]
+    /\ cache' = [cache EXCEPT ![key[i]] = Content(i)]
     /\ served' = NoReply
-    /\ UNCHANGED <<variant, cfg, key, clock, rounds, chan, winner, providers, part, offers, inel, auctions>>
+    /\ UNCHANGED <<variant, prov, cfg, tab, key, clock, rounds, chan, winner, providers, part, offers, inel, lost, memo>>
 
-NewAuction(k) ==
-    /\ returned
-    /\ auctions < MaxAuctions
-    /\ cache[k] = Unset
-    /\ FreshAuction(k)
-    /\ auctions' = auctions + 1
-    /\ served' = NoReply
-    /\ UNCHANGED <<variant, cfg, cache>>
-
+\* BuilderBid on a key that has been auctioned (other auctions may be in progress)
 Serve(k) ==
-    /\ returned
     /\ cache[k] # Unset
     /\ served' = [op |-> "serve", key |-> k, bid |-> cache[k]]
-    /\ UNCHANGED <<variant, cfg, key, clock, rounds, chan, winner, providers, part, returned, cache, offers, inel, auctions>>
+    /\ UNCHANGED <<variant, prov, avars, cache, memo>>
 
 Next ==
-    \/ \E r \in Relays, a \in AnswerSet : Deliver(r, a)
-    \/ \E e \in chan : Consume(e) \/ Drop(e)
-    \/ Tick
-    \/ Return
-    \/ \E k \in Keys : NewAuction(k) \/ Serve(k)
+    \/ \E i \in Auc, k \in Keys, c \in CfgSet, t \in TableSet : Start(i, k, c, t)
+    \/ \E i \in Auc, r \in Relays, a \in AnswerSet : Deliver(i, r, a)
+    \/ \E i \in Auc : \E e \in chan[i] : Consume(i, e) \/ Drop(i, e)
+    \/ \E i \in Auc : Tick(i) \/ Return(i)
+    \/ \E k \in Keys : Serve(k)
 
 Spec == Init /\ [][Next]_vars
 
 -----------------------------------------------------------------------------
+(* The property, for every auction of the history, from that auction's own inputs.              *)
 Max(S) == CHOOSE x \in S : \A y \in S : y <= x
-Scoring == {o \in offers : o.score # 0}
+Scoring(i) == {o \in offers[i] : o.score # 0}
+Done == {i \in Auc : st[i] = "done"}
+Past == {i \in Auc : st[i] = "past"}
 
 TypeOK ==
-    /\ clock \in 0..2
-    /\ providers \subseteq Relays
-    /\ \A e \in chan : e.r \in Relays
+    /\ \A i \in Auc : clock[i] \in 0..2 /\ providers[i] \subseteq Relays /\ \A e \in chan[i] : e.r \in Relays
+    /\ Cardinality(Open) <= MaxOpen
 
 \* C09: the winner's score is the highest score among the eligible, non-zero-score bids that arrived
 \* before the decision point
 WinnerIsArgmax ==
-    (returned /\ winner # NoWin) =>
-        /\ \E o \in Scoring : o.r = winner.r /\ o.n = winner.n /\ o.score = winner.score /\ o.hdr = winner.hdr
-        /\ winner.score = Max({o.score : o \in Scoring})
+    \A i \in Done : winner[i] # NoWin =>
+        /\ \E o \in Scoring(i) : o.r = winner[i].r /\ o.n = winner[i].n /\ o.score = winner[i].score /\ o.hdr = winner[i].hdr
+        /\ winner[i].score = Max({o.score : o \in Scoring(i)})
 
 \* C09: ineligible, late or zero-score (excluded builder) bids never win
 OnlyEligibleWin ==
-    (returned /\ winner # NoWin) =>
-        /\ <<winner.r, winner.n>> \notin inel
-        /\ winner.score # 0
+    \A i \in Done : winner[i] # NoWin =>
+        /\ <<winner[i].r, winner[i].n>> \notin inel[i]
+        /\ winner[i].score # 0
 
 \* C09: every relay listed for unblinding offered the winning payload; the winner's relay is listed
 ProvidersOfferedWinner ==
-    returned =>
-        IF winner = NoWin THEN providers = {}
-        ELSE /\ winner.r \in providers
-             /\ providers \subseteq {o.r : o \in {x \in offers : x.hdr = winner.hdr}}
+    \A i \in Done :
+        IF winner[i] = NoWin THEN providers[i] = {}
+        ELSE /\ winner[i].r \in providers[i]
+             /\ providers[i] \subseteq {o.r : o \in {x \in offers[i] : x.hdr = winner[i].hdr}}
 
 \* C09: no eligible bid <=> no winner (so that the local payload is used)
-NoWinnerIffNone == returned => ((winner = NoWin) <=> (Scoring = {}))
+NoWinnerIffNone == \A i \in Done : (winner[i] = NoWin) <=> (Scoring(i) = {})
 
 \* participation entries are bids the relay really made
 ParticipationSound ==
-    \A r \in Relays : part[r] # NoPart =>
-        \E o \in offers : o.r = r /\ o.n = part[r].n /\ o.score = part[r].score
+    \A i \in Auc : \A r \in Relays : part[i][r] # NoPart =>
+        \E o \in offers[i] : o.r = r /\ o.n = part[i][r].n /\ o.score = part[i][r].score
 
 \* C09: a bid that arrived before the time-out on which the decision rests has been considered
-ArrivedConsidered == returned => \A e \in chan : e.ph >= clock
+ArrivedConsidered == \A i \in Done : \A e \in chan[i] \cup lost[i] : e.ph >= clock[i]
 
-\* C09 (cache): what is served for a key is the result of the auction for that key
+\* C09 (cache, the persistent state): what is kept for a key is the result of THE auction for that key
 CacheRight ==
-    /\ \A k \in Keys : cache[k] \notin {Unset, NoBid} => cache[k].k = k
-    /\ returned => cache[key] = Content(winner, key)
-ServedRight == served.op = "serve" => (served.bid = cache[served.key] /\ (served.bid # NoBid => served.bid.k = served.key))
+    /\ \A k \in Keys : cache[k] \notin {Unset, NoBid} => (cache[k].i \in Done \cup Past /\ key[cache[k].i] = k)
+    /\ \A i \in Done : cache[key[i]] = Content(i)
+    /\ \A k \in Keys : cache[k] # Unset => \E i \in Done \cup Past : key[i] = k
+ServedRight == served.op = "serve" => served.bid = cache[served.key]
+
+\* the history is a history: no two auctions of one key, nothing in an auction that has not started
+HistoryShape ==
+    /\ \A i, j \in Auc : (i # j /\ st[i] # "idle" /\ st[j] # "idle") => key[i] # key[j]
+    /\ \A i \in Auc : st[i] \in {"idle", "past"} => (chan[i] = {} /\ offers[i] = {} /\ winner[i] = NoWin)
 =============================================================================
